@@ -9,6 +9,11 @@ from rxv import context, extract
 from rxv.rules import panic as P
 import rxv.rules
 
+def _with_types(pat):
+    import re as _re
+    return _re.sub(r"(Overflow(?::(?:Add|Sub|Mul))?|OverflowNeg)(?!<)(\\\()", r"\1(?:<[^>]*>)?\2", pat)
+
+
 R = [
  # ---- genuine defects (DESIGN.md section 6)
  (r"^analyze_string::AnalyzeIter::compute_nesting_table\|", None, "runs only on the text of a pattern the parser accepted (gated on !is_literal, LITERAL-ANALYZE): parentheses and brackets are balanced, every '(' has a successor, no trailing backslash; stacks have pattern.len() slots"),
@@ -20,7 +25,7 @@ R = [
  (r"tainted|Overflow:Mul\(|Overflow:Add\(a3, mul\(|get_minimum_match_length\(|get_match_length\(.*Overflow|OverflowNeg\(\(a1\.len as i64\)\)", "F17", "F17: arithmetic on quantifier bounds / lengths derived from them is unchecked (e.g. (?:ab){9223372036854775808})"),
  # ---- audited (safe by an invariant confirmed by reading)
  (r"^re_compiler::ReCompiler::compile\|index:index\(a1\.pattern, a1\.idx\)", None, "idx <= len is a parser invariant (every increment is guarded or follows a successful look-ahead); here idx != len was just established"),
- (r"^re_compiler::ReCompiler::compile\|Overflow:Sub\(v, 1\)", None, "i32 nesting counter: underflow needs 2^31 unescaped ']' (pattern length assumption)"),
+ (r"^re_compiler::ReCompiler::compile\|Overflow:Sub<i32>\(v, 1\)", None, "i32 nesting counter: it may go negative (a stray ']'), underflow needs 2^31 unescaped ']' (pattern length assumption)"),
  (r"^re_compiler::ReCompiler::(escape|parse_character_class|parse_terminal|bracket)\|index:index\(a1\.pattern, a1\.idx\)", None, "callee-entry read of pattern[idx]: every caller tested idx < len and/or pattern[idx] (belief consistency is checked by INTERNAL-UNREACHABLE)"),
  (r"^re_compiler::ReCompiler::parse_expr\|index:index\(a1\.pattern, a1\.idx\)", None, "evaluated only when NODE_TOPLEVEL is clear, i.e. when called from parse_terminal's '(' arm which tested pattern[idx]"),
  (r"^re_compiler::ReCompiler::parse_expr\|index:index\(a1\.pattern, add\(1, a1\.idx\)\)", None, "guarded by idx+2 < len (arithmetic consequence, not syntactic)"),
@@ -82,7 +87,7 @@ def main():
     for key, lst in sorted(groups.items()):
         why = lst[0]
         for rx, fid, reason in R:
-            if re.search(rx, key) or (fid == "F17" and "tainted" in why and re.search(r"tainted", rx)):
+            if re.search(_with_types(rx), key) or (fid == "F17" and "tainted" in why and re.search(r"tainted", rx)):
                 e = {"count": len(lst), "reason": reason}
                 if fid:
                     e["finding"] = fid
